@@ -193,12 +193,15 @@ structure Node where
   vc : Velocity.NodeVC
   /-- trim thresholds at the (fixed) commitment feerate of the channels -/
   dust : Dust
+  /-- `policy.max_invoices()` -/
+  maxInv : Nat
 
-def Node.init (nch : Nat) (pol : Policy) (spec : Velocity.Spec := ⟨0, .unlimited⟩) (dust : Dust := ⟨0, 0⟩) : Node :=
+def Node.init (nch : Nat) (pol : Policy) (spec : Velocity.Spec := ⟨0, .unlimited⟩) (dust : Dust := ⟨0, 0⟩)
+    (maxInv : Nat := 1000) : Node :=
   { nch := nch, pol := pol, invoices := fun _ => none, known := [], payments := fun _ => none,
     chans := fun _ => ChanSt.init, disk := ⟨fun _ => none, fun _ => false⟩,
     issued := fun _ => none, diskIssued := fun _ => none,
-    spec := spec, vc := Velocity.NodeVC.ofSpec spec, dust := dust }
+    spec := spec, vc := Velocity.NodeVC.ofSpec spec, dust := dust, maxInv := maxInv }
 
 inductive VRes | ok | err | panic
 deriving DecidableEq, Repr
@@ -440,6 +443,14 @@ inductive Op
   | restart
 deriving Repr
 
+/-- Which request a proposal turns into (`Approve::handle_proposed_invoice` / `handle_proposed_keysend` of
+    vls-protocol-signer), given the approver's answer and whether the payee is on the node's allowlist
+    (`Allowable::Payee`): the invoice of an allowlisted payee goes to `add_invoice` WITHOUT asking the approver;
+    `handle_proposed_keysend` does not look at the allowlist (TODO in the source), there only the approver decides.
+    (The `has_payment` shortcut in front of both is the first branch of `Node.approve` / `Node.proposeDeclined`.) -/
+def proposalOp (isInvoice allowlisted approverYes : Bool) (h : Hash) (inv : Invoice) (now : Nat) : Op :=
+  if approverYes || (isInvoice && allowlisted) then .approve h inv now else .decline h inv
+
 def Op.mentioned : Op → List Hash
   | .cpSign _ _ i => hashes i.inc ++ hashes i.out
   | .hValidate _ _ i => hashes i.inc ++ hashes i.out
@@ -448,6 +459,16 @@ def Op.mentioned : Op → List Hash
   | .issue h _ => [h]
   | .fulfill h => [h]
   | _ => []
+
+/-- `state.invoices.len()` over the finite support -/
+def Node.invoiceCount (n : Node) : Nat := (n.known.eraseDups.filter (fun h => (n.invoices h).isSome)).length
+
+/-- `state.invoices.len() >= policy.max_invoices()`: `add_invoice` / `add_keysend` then answer `Err("too many invoices")`
+    — BEFORE they look whether the hash already has an invoice.  Through the approver the `has_payment` shortcut comes
+    first, so there an existing entry still answers (same = `Ok(true)`, different = `Err`); a DIRECT call is refused
+    even for an identical repeat (`Node.directRefusedByLimit`). -/
+def Node.full (n : Node) : Bool := decide (n.invoiceCount ≥ n.maxInv)
+def Node.directRefusedByLimit (n : Node) : Bool := n.full
 
 def Node.exec (n : Node) : Op → Option (Node × Bool)
   -- `validate_counterparty_commitment_tx` / `validate_holder_commitment_tx` (→ `validate_commitment_tx`) run before
@@ -465,7 +486,10 @@ def Node.exec (n : Node) : Op → Option (Node × Bool)
       | (n', .ok) => some (n', true) | (_, .err) => some (n, false) | (_, .panic) => none
   | .cpRevoke c => match n.cpRevoke c with
       | (n', .ok) => some (n', true) | (_, _) => some (n, false)
-  | .approve h inv now => match n.approve h inv now with
+  | .approve h inv now =>
+    -- (through the approver) an existing entry answers first, a NEW approval is refused when the table is full
+    if n.full && (n.invoices h).isNone then some (n, false) else
+    match n.approve h inv now with
       | (n', .added) => some (n', true) | (_, .same) => some (n, true) | (_, .different) => some (n, false)
       | (n', .declined) => some (n', false) | (_, .panic) => none
   | .decline h inv => some (n, n.proposeDeclined h inv == .same)
